@@ -112,8 +112,8 @@ def _run(chk, binary, rng, thorough, nsc, nruns):
         if kind == "stdin-lw":
             sc = {"files": [], "opts": fopts + ["--linewise"], "cmds": prog, "stdin": big_text(rng, nlines)}
         else:
-            if "--json" in fopts:
-                fopts = []           # the multi-file JSON shapes differ by design between drivers
+            # (several files, --linewise, --json: the parallel driver nests each line's document, the serial one does not;
+            # those runs are compared with each other and not with --serial)
             nf = rng.choice([1, 2, 3, 5, 8, 8, 8])
             names = ["f%02d.txt" % (rng.randint(0, 99)) for _ in range(nf)]
             names = list(dict.fromkeys(names))
@@ -179,7 +179,8 @@ def _run(chk, binary, rng, thorough, nsc, nruns):
                                "stdin": (sc.get("stdin") or "")[:400], "files": [(a, b.decode(errors="replace")[:3000]) for a, b in sc["files"]]})
                 break
         # against --serial (up to serial's extra final newline on stdout)
-        if ref["rc"] == 0 and base["rc"] == 0:
+        shape_differs = "--json" in sc["opts"] and "--linewise" in sc["opts"] and sc["files"]
+        if ref["rc"] == 0 and base["rc"] == 0 and not shape_differs:
             if not rel_serial(base["out"], ref["out"]) or base["final"] != ref["final"]:
                 chk.violation("spec:parallel result differs from --serial",
                               {"kind": kind, "argv": base["argv"], "stdout_parallel": base["out"].decode(errors="replace")[:600],
@@ -205,7 +206,7 @@ def _run(chk, binary, rng, thorough, nsc, nruns):
                        "all runs must be byte-identical in stdout and files, and equal to --serial up to its extra final newline; worker-thread ids per run are read from the hook trace. "
                        "evaluations = scenarios; each has several schedules (traces_validated_against_impl = runs)")
     chk.assumptions += ["real interleavings are sampled, not enumerated: that rayon only produces schedules of the model (units run whole on one worker, results tagged), that thread_local! is per thread and that safe Rust has no data race are trusted",
-                        "multi-file --json output has a different shape per driver by design and is excluded"]
+                        "--linewise --json over files has a different shape per driver by design: those runs are compared across thread counts and schedules, not with --serial"]
     return chk.finish()
 
 
